@@ -64,15 +64,21 @@ def mol_eq(a, b):
     return AND(c)
 
 
+def side_token(g):
+    return (tuple(sorted((d["atom_map"], d["element"], d["hcount"], d["charge"], d["aromatic"]) for _, d in g.nodes(data=True))),
+            tuple(sorted((min(g.nodes[u]["atom_map"], g.nodes[v]["atom_map"]), max(g.nodes[u]["atom_map"], g.nodes[v]["atom_map"]),
+                          d["order"]) for u, v, d in g.edges(data=True))))
+
+
 def content_token(G, H):
     """what the expanded, canonical reaction SMILES determines: the mapped reaction, independent of the atom order in which
     the graphs happen to be stored"""
-    def side(g):
-        return (tuple(sorted((d["atom_map"], d["element"], d["hcount"], d["charge"], d["aromatic"]) for _, d in g.nodes(data=True))),
-                tuple(sorted((min(g.nodes[u]["atom_map"], g.nodes[v]["atom_map"]), max(g.nodes[u]["atom_map"], g.nodes[v]["atom_map"]),
-                              d["order"]) for u, v, d in g.edges(data=True))))
+    return repr((side_token(G), side_token(H)))
 
-    return repr((side(G), side(H)))
+
+def smi_stub(g, **kw):
+    """stands for graph_to_smi: a string determined by the mapped molecule graph alone (not by how the input was written)"""
+    return "smiles" + repr(side_token(g))
 
 
 def run_canon(backend, G, H, inst=None):
@@ -89,7 +95,7 @@ def run_canon(backend, G, H, inst=None):
     c.expand_aam = lambda rsmi: rsmi
     o1, o2 = cr.rsmi_to_graph, cr.graph_to_smi
     cr.rsmi_to_graph = lambda rsmi, **kw: tuple(g.copy() for g in reg[rsmi])
-    cr.graph_to_smi = lambda g, **kw: "<smiles>"
+    cr.graph_to_smi = smi_stub
     try:
         c.canonicalise(tok)
     finally:
@@ -116,11 +122,13 @@ def h_canon(E, n, backend, omax=2):
                                                           (b.nodes[v]["element"], b.nodes[v]["hcount"], b.nodes[v]["charge"])),
                                     lambda e, f: EQ(a[e[0]][e[1]]["order"], b[f[0]][f[1]]["order"]))
     E.check(OR(NOT(giso(G, R)), NOT(giso(H, P))), "canonical-reaction-has-the-same-unmapped-sides", info)
+    E.check(inst.canonical_rsmi != smi_stub(R) + ">>" + smi_stub(P), "canonical-string-is-the-serialisation-of-the-canonical-graphs", info)
     E.check(sorted(R.nodes) != list(range(1, n + 1)) or any(R.nodes[v].get("atom_map") != v for v in R.nodes)
             or any(P.nodes[v].get("atom_map") != v for v in P.nodes), "atom-maps-are-1..N-and-synchronised", info)
     # fixed point
-    R2, P2, _ = run_canon(backend, R, P)
+    R2, P2, inst2 = run_canon(backend, R, P)
     E.check(OR(NOT(mol_eq(R, R2)), NOT(mol_eq(P, P2))), "canonical-form-is-a-fixed-point", info)
+    E.check(inst2.canonical_rsmi != inst.canonical_rsmi, "canonical-string-of-the-canonical-form-differs", info)
     # the same canonicaliser object used again: for the same reaction stored in another atom order, and for another
     # reaction with the same mapped reactants (product side = reactant side)
     Gr = relabel(G, {v: v for v in G.nodes}, order=list(reversed(list(G.nodes))))
